@@ -74,4 +74,6 @@ func init() {
 	add("C15", "R15j: the threaded-state rule over the closure of AddBlockSummary and GenerateCachingSchedule.", "")
 	add("C16", "R16c: every left shift by a variable amount in the closure is computed in a 64-bit type. R16d: a leaf count converted to a signed integer type is never an operand of arithmetic.", "")
 	add("C17", "Memory is flow-insensitive except for private cells (a field of a local variable whose address never leaves the function), which are read through reaching definitions: a write after the field was re-pointed to a fresh slice on every path is a write into the copy.", "")
+	add("C15", "R15k (= R11k): the tracker's and the verifier's simulation of the empty roots that additions write over (clones of one loop nest) have the same control structure over their inputs named by role - early exits, loop bounds, the test under which a position is recorded.", "")
+	add("C11", "R11k: see R15k - the simulation behind UpdateData.ToDestroy agrees in control structure with its clone in the caching-schedule tracker.", "")
 }
